@@ -18,6 +18,7 @@ import MayVerif.Model.Sync.WaitGroupReplay
 import MayVerif.Model.Runtime.CancelReplay
 import MayVerif.Model.Time.DurReplay
 import MayVerif.Model.Time.TimeoutListReplay
+import MayVerif.Model.IoReplay
 open MayVerif
 
 def machines : List (String × Machine) := [
@@ -39,5 +40,10 @@ def machines : List (String × Machine) := [
   ("cancel_mutex", MayVerif.Mutex.machine),
   ("cancel_cvlock", MayVerif.Cancel.oracleOnly),
   ("time_dur", MayVerif.Time.machine),
-  ("timeout_list", MayVerif.Time.TL.machine)
+  ("timeout_list", MayVerif.Time.TL.machine),
+  ("io_stream", MayVerif.Io.machine),
+  ("io_timeout", MayVerif.Io.machine),
+  ("io_timeout_race", MayVerif.Io.machine),
+  ("io_cancel", MayVerif.Io.machine),
+  ("io_cancel_shared", MayVerif.Io.machine)
 ]
